@@ -8,15 +8,22 @@ package main
 // by the raft-side checks) and applied through rsm.StateMachine.Handle ->
 // node.ApplyConfigChange -> raft.Peer / registry / pendingConfigChange.
 //
-// case line:   <id> node ordered=<0|1> peers=<k> | op ; op ; ...      (the node is replica 1 of peers 1..k)
+// case line:   <id> node ordered=<0|1> peers=<k> [kind=full|nonvoting|witness] | op ; op ; ...
+//              kind=full: the node is replica 1 of the initial members 1..k. Otherwise the node is replica 1
+//              started with config.IsNonVoting / IsWitness joining a shard whose initial members are 2..k+1;
+//              it is added by an entry of the stream. Ops that would add replica 1 under another kind than
+//              the one it was started with are skipped (SKIP): raft panics on them by design.
 // ops:         req <type> <replica> <addrhex> <ccid>        local request, committed and applied at once
 //              badreq <type> <replica> <addrhex> <ccid>     local request with a target the validator refuses (no entry)
 //              pend <type> <replica> <addrhex> <ccid>       local request left pending
 //              commit                                       the pending local request is committed and applied
 //              ent <type> <replica> <addrhex> <ccid> <init> an entry proposed elsewhere (another request's key)
+//              qent <type> <replica> <addrhex> <ccid> <init> such an entry pushed to the apply queue (node.pushEntries) but not handled yet
+//              handle                                       the apply queue is drained (every other op drains it first)
 //              restore <skip> <ccid> <a> <n> <w> <r>        snapshot at applied+1+skip restored through StateMachine.Recover
 // observation: <id> <n> B <membership> (after the bootstrap entries, n = -1 printed as b)
-//              <id> <n> A|R <membership> / REFUSED addr|busy / PENDING / NOPENDING / S <membership> / SELFREMOVED
+//              <id> <n> A|R <membership> / REFUSED addr|busy|witness / PENDING / NOPENDING / S <membership> / SELFREMOVED
+//              <id> <n> QUEUED / H <count> <membership> (queue drained) / SKIP
 
 import (
 	"fmt"
@@ -74,11 +81,30 @@ func runNodeCase(id, head, body, line string, obs *vh.LineWriter, st *vh.Stats) 
 	if k > len(hosts) {
 		k = len(hosts)
 	}
-	peers := map[uint64]string{}
-	for i := 1; i <= k; i++ {
-		peers[uint64(i)] = hosts[i-1]
+	kind := "full"
+	for _, f := range strings.Fields(head) {
+		if strings.HasPrefix(f, "kind=") {
+			kind = f[5:]
+		}
 	}
-	cfg := config.Config{ShardID: 1, ReplicaID: nodeSelf, OrderedConfigChange: ordered, ElectionRTT: 10, HeartbeatRTT: 1}
+	if kind != "nonvoting" && kind != "witness" {
+		kind = "full"
+	}
+	first := 1 // id of the first initial member
+	if kind != "full" {
+		first = 2
+		if k > len(hosts)-1 {
+			k = len(hosts) - 1
+		}
+	}
+	peers := map[uint64]string{}
+	if kind == "full" {
+		for i := 1; i <= k; i++ {
+			peers[uint64(i)] = hosts[i-1]
+		}
+	}
+	cfg := config.Config{ShardID: 1, ReplicaID: nodeSelf, OrderedConfigChange: ordered, ElectionRTT: 10, HeartbeatRTT: 1,
+		IsNonVoting: kind == "nonvoting", IsWitness: kind == "witness"}
 	ss := &smSnapshotter{loadOK: true}
 	var nd *hooks.Node
 	if p := vh.Catch(func() { nd = hooks.NewNode(cfg, peers, nodeValidTarget, nodeUserSM{}, ss) }); p != "" {
@@ -122,7 +148,7 @@ func runNodeCase(id, head, body, line string, obs *vh.LineWriter, st *vh.Stats) 
 				bad(n, fmt.Sprintf("%s: replica %d, removed by an applied entry, still has a node registry entry", what, rid))
 			}
 		}
-		if published {
+		if published && kind != "witness" {
 			si, ok := nd.ShardInfo()
 			if !ok {
 				bad(n, what+": no ShardInfo published")
@@ -130,6 +156,14 @@ func runNodeCase(id, head, body, line string, obs *vh.LineWriter, st *vh.Stats) 
 				bad(n, fmt.Sprintf("%s: published ShardInfo (ccid %d, replicas %v) differs from the membership %s", what,
 					si.ConfigChangeIndex, sortedKeys(si.Replicas), showMembership(m)))
 			}
+		}
+	}
+
+	// the step worker's update: raft must be told exactly how far the state machine has applied
+	checkApplied := func(n int, what string) {
+		nd.UpdateAppliedIndex()
+		if ra, sa := nd.RaftApplied(), nd.SM().GetLastApplied(); ra != sa {
+			bad(n, fmt.Sprintf("%s: raft was told applied index %d, the state machine has applied %d", what, ra, sa))
 		}
 	}
 
@@ -165,6 +199,9 @@ func runNodeCase(id, head, body, line string, obs *vh.LineWriter, st *vh.Stats) 
 	}
 
 	published := false
+	var pending *dragonboat.RequestState
+	var pendingCC pb.ConfigChange
+	var pendingKey uint64
 	// applyEntry feeds one committed config change entry; pending = the local request it belongs to (or nil)
 	applyEntry := func(n int, cc pb.ConfigChange, key uint64, local *dragonboat.RequestState, other *dragonboat.RequestState) (stop bool) {
 		index := applied + 1
@@ -173,8 +210,10 @@ func runNodeCase(id, head, body, line string, obs *vh.LineWriter, st *vh.Stats) 
 		vh.Catch(func() { want = oracle.HandleConfigChange(cc, index) })
 		var err error
 		p := vh.Catch(func() {
-			nd.SM().TaskQ().Add(hooks.Task{Entries: []pb.Entry{e}})
+			nd.PushEntries([]pb.Entry{e})
+			checkApplied(n, fmt.Sprintf("entry %d pushed to the apply queue", index))
 			_, err = nd.SM().Handle(make([]hooks.Task, 0), make([]sm.Entry, 0))
+			checkApplied(n, fmt.Sprintf("entry %d handled", index))
 		})
 		if p != "" || err != nil {
 			bad(n, fmt.Sprintf("applying the committed config change entry %d (%s replica %d %q) failed: %s %v", index, cc.Type, cc.ReplicaID, cc.Address, p, err))
@@ -224,14 +263,14 @@ func runNodeCase(id, head, body, line string, obs *vh.LineWriter, st *vh.Stats) 
 	}
 
 	// bootstrap entries, as raft's bootstrap puts them in the log
-	for i := 1; i <= k; i++ {
+	for i := first; i < first+k; i++ {
 		cc := pb.ConfigChange{Type: pb.AddNode, ReplicaID: uint64(i), Address: hosts[i-1], Initialize: true}
 		index := applied + 1
 		e := pb.Entry{Type: pb.ConfigChangeEntry, Index: index, Term: 1, Cmd: pb.MustMarshal(&cc)}
 		vh.Catch(func() { oracle.HandleConfigChange(cc, index) })
 		var err error
 		p := vh.Catch(func() {
-			nd.SM().TaskQ().Add(hooks.Task{Entries: []pb.Entry{e}})
+			nd.PushEntries([]pb.Entry{e})
 			_, err = nd.SM().Handle(make([]hooks.Task, 0), make([]sm.Entry, 0))
 		})
 		if p != "" || err != nil {
@@ -242,16 +281,23 @@ func runNodeCase(id, head, body, line string, obs *vh.LineWriter, st *vh.Stats) 
 		applied = index
 	}
 	published = true
+	checkApplied(-1, "after bootstrap")
 	obs.Printf("%s b B %s\n", id, showMembership(nd.SM().GetMembership()))
 	checkView(-1, "after bootstrap", true)
 
-	var pending *dragonboat.RequestState
-	var pendingCC pb.ConfigChange
-	var pendingKey uint64
 	request := func(n int, f []string) (*dragonboat.RequestState, pb.ConfigChange, uint64, bool) {
 		cc, _ := parseCC([]string{"cc", f[1], f[2], f[3], f[4], "0", "0"})
 		rs, err := nd.RequestConfigChange(cc.Type, cc.ReplicaID, cc.Address, cc.ConfigChangeId, 1000)
 		switch {
+		case kind == "witness":
+			if err != dragonboat.ErrInvalidOperation || rs != nil {
+				bad(n, fmt.Sprintf("a witness accepted a membership request (%v)", err))
+				nd.TakeRequested()
+			}
+			if f[0] != "badreq" {
+				obs.Printf("%s %d REFUSED witness\n", id, n)
+			}
+			return nil, cc, 0, false
 		case f[0] == "badreq":
 			if err != dragonboat.ErrInvalidAddress || rs != nil {
 				bad(n, fmt.Sprintf("request with the invalid target %q was not refused with ErrInvalidAddress (%v)", cc.Address, err))
@@ -289,12 +335,94 @@ func runNodeCase(id, head, body, line string, obs *vh.LineWriter, st *vh.Stats) 
 		return rs, got, key, true
 	}
 
+	// ops that would add the node itself under a kind it was not started with are skipped
+	skipForKind := func(cc pb.ConfigChange) bool {
+		if kind == "full" || cc.ReplicaID != nodeSelf || cc.Type == pb.RemoveNode {
+			return false
+		}
+		if kind == "witness" {
+			return cc.Type != pb.AddWitness
+		}
+		if cc.Type == pb.AddNode {
+			_, isNV := oracle.Get().NonVotings[nodeSelf]
+			return !isNV
+		}
+		return cc.Type != pb.AddNonVoting
+	}
+	queued := 0
+	// drain hands the queued entries to the state machine; true = the case ends here
+	drain := func(n int, report bool) bool {
+		if queued == 0 {
+			if report {
+				obs.Printf("%s %d H 0 %s\n", id, n, showMembership(nd.SM().GetMembership()))
+			}
+			return false
+		}
+		var err error
+		p := vh.Catch(func() {
+			for i := 0; i < queued+1 && nd.SM().GetLastApplied() < applied && err == nil; i++ {
+				_, err = nd.SM().Handle(make([]hooks.Task, 0), make([]sm.Entry, 0))
+				checkApplied(n, "queued entries handled")
+			}
+		})
+		if p != "" || err != nil || nd.SM().GetLastApplied() != applied {
+			bad(n, fmt.Sprintf("handling %d queued config change entries failed: %s %v (applied %d, pushed %d)", queued, p, err, nd.SM().GetLastApplied(), applied))
+			obs.Printf("%s %d FAILED\n", id, n)
+			return true
+		}
+		m := nd.SM().GetMembership()
+		if showMembership(m) != showMembership(oracle.Get()) {
+			bad(n, "after the queued entries: the state machine's membership differs from the membership rules'")
+		}
+		obs.Printf("%s %d H %d %s\n", id, n, queued, showMembership(m))
+		queued = 0
+		published = true
+		checkView(n, "after the queued entries", false)
+		if _, gone := m.Removed[nodeSelf]; gone {
+			selfRemoved(n, pending)
+			return true
+		}
+		return false
+	}
+
 	for n, op := range strings.Split(body, " ; ") {
 		f := strings.Fields(op)
 		if len(f) == 0 {
 			continue
 		}
+		if f[0] != "qent" && f[0] != "badreq" {
+			if drain(n, f[0] == "handle") {
+				st.Case(line, nLocal > 0, line)
+				return
+			}
+		}
+		if len(f) >= 3 && (f[0] == "req" || f[0] == "pend" || f[0] == "ent" || f[0] == "qent") {
+			t, _ := parseCC([]string{"cc", f[1], f[2], "-", "0", "0", "0"})
+			if skipForKind(t) {
+				obs.Printf("%s %d SKIP\n", id, n)
+				continue
+			}
+		}
 		switch f[0] {
+		case "handle":
+		case "qent":
+			cc, _ := parseCC([]string{"cc", f[1], f[2], f[3], f[4], f[5], "0"})
+			index := applied + 1
+			key := 0xF0000000 + applied
+			if pending != nil && key == pendingKey {
+				key++
+			}
+			e := pb.Entry{Type: pb.ConfigChangeEntry, Index: index, Term: 1, Key: key, Cmd: pb.MustMarshal(&cc)}
+			vh.Catch(func() { oracle.HandleConfigChange(cc, index) })
+			nd.PushEntries([]pb.Entry{e})
+			applied = index
+			queued++
+			if cc.Type == pb.RemoveNode && oracle.Get().ConfigChangeId == index {
+				removedByEntry[cc.ReplicaID] = true
+			}
+			checkApplied(n, fmt.Sprintf("entry %d pushed to the apply queue, not handled yet", index))
+			st.Count("node.queued")
+			obs.Printf("%s %d QUEUED\n", id, n)
 		case "badreq":
 			request(n, f)
 		case "req":
@@ -404,21 +532,47 @@ var nodeBadTargets = []string{"", "a b:1", "host1:0", "host1", "host1:70000", ":
 func genNodeCase(r *vh.Rand) string {
 	ordered := r.Intn(5) < 2
 	k := 1 + r.Intn(3)
+	kind := []string{"full", "full", "nonvoting", "witness"}[r.Intn(4)]
+	first := 1
+	if kind != "full" {
+		first = 2
+	}
 	shadow := hooks.NewMembership(1, nodeSelf, ordered)
 	index := uint64(0)
-	for i := 1; i <= k; i++ {
+	for i := first; i < first+k; i++ {
 		index++
 		shadow.HandleConfigChange(pb.ConfigChange{Type: pb.AddNode, ReplicaID: uint64(i), Address: hosts[i-1], Initialize: true}, index)
 	}
 	var ops []string
 	havePending := false
 	var pend pb.ConfigChange
+	skips := func(cc pb.ConfigChange) bool { // the harness' skip rule
+		if kind == "full" || cc.ReplicaID != nodeSelf || cc.Type == pb.RemoveNode {
+			return false
+		}
+		if kind == "witness" {
+			return cc.Type != pb.AddWitness
+		}
+		if cc.Type == pb.AddNode {
+			_, isNV := shadow.Get().NonVotings[nodeSelf]
+			return !isNV
+		}
+		return cc.Type != pb.AddNonVoting
+	}
 	mkCC := func() pb.ConfigChange {
 		cur := shadow.Get()
 		cc := pb.ConfigChange{Type: pb.ConfigChangeType([]int32{0, 0, 0, 1, 2, 2, 3}[r.Intn(7)]),
 			ReplicaID: uint64(1 + r.Intn(8)), Address: genNodeAddr(r)}
 		if cc.ReplicaID == nodeSelf && !r.Chance(1, 4) {
 			cc.ReplicaID = uint64(2 + r.Intn(7)) // the own removal ends the case: keep it rare
+		}
+		_, selfNV := cur.NonVotings[nodeSelf]
+		_, selfW := cur.Witnesses[nodeSelf]
+		if kind != "full" && !selfNV && !selfW && !cur.Removed[nodeSelf] && len(cur.Addresses) > 0 && r.Chance(1, 3) {
+			if _, isV := cur.Addresses[nodeSelf]; !isV { // the node joins under the kind it was started with
+				cc = pb.ConfigChange{Type: map[string]pb.ConfigChangeType{"nonvoting": pb.AddNonVoting, "witness": pb.AddWitness}[kind],
+					ReplicaID: nodeSelf, Address: "self:1"}
+			}
 		}
 		switch r.Intn(8) {
 		case 0:
@@ -440,6 +594,10 @@ func genNodeCase(r *vh.Rand) string {
 			if id, ok := pickKey(r, cur.Addresses); ok && (id != nodeSelf || r.Chance(1, 3)) {
 				cc = pb.ConfigChange{Type: pb.RemoveNode, ReplicaID: id}
 			}
+		case 3: // an address in use: rejected
+			if id, ok := pickKey(r, cur.Addresses); ok && cc.Type != pb.RemoveNode && cc.ReplicaID != nodeSelf {
+				cc.Address = cur.Addresses[id]
+			}
 		}
 		cc.ConfigChangeId = cur.ConfigChangeId
 		if r.Chance(1, 6) {
@@ -450,11 +608,9 @@ func genNodeCase(r *vh.Rand) string {
 	valid := func(cc pb.ConfigChange) bool { return cc.Type == pb.RemoveNode || nodeValidTarget(cc.Address) }
 	apply := func(cc pb.ConfigChange) {
 		index++
-		if cc.Type == pb.RemoveNode {
-			cc.Address = ""
-		}
 		vh.Catch(func() { shadow.HandleConfigChange(cc, index) })
 	}
+	local := kind != "witness" // a witness refuses requests
 	nops := 3 + r.Intn(22)
 	for len(ops) < nops {
 		if shadow.Get().Removed[nodeSelf] {
@@ -467,53 +623,64 @@ func genNodeCase(r *vh.Rand) string {
 				cc.Type = pb.AddNode
 			}
 			cc.Address = nodeBadTargets[r.Intn(len(nodeBadTargets))]
+			if cc.ReplicaID == nodeSelf {
+				cc.ReplicaID = 7
+			}
 			ops = append(ops, fmt.Sprintf("badreq %d %d %s %d", int32(cc.Type), cc.ReplicaID, vh.Hex([]byte(cc.Address)), cc.ConfigChangeId))
-		case x < 48:
+		case x < 40:
 			cc := mkCC()
 			ops = append(ops, fmt.Sprintf("req %d %d %s %d", int32(cc.Type), cc.ReplicaID, vh.Hex([]byte(cc.Address)), cc.ConfigChangeId))
-			if valid(cc) && !havePending {
+			if local && valid(cc) && !havePending && !skips(cc) {
 				apply(cc)
 			}
-		case x < 58:
+		case x < 48:
 			cc := mkCC()
 			ops = append(ops, fmt.Sprintf("pend %d %d %s %d", int32(cc.Type), cc.ReplicaID, vh.Hex([]byte(cc.Address)), cc.ConfigChangeId))
-			if valid(cc) && !havePending {
+			if local && valid(cc) && !havePending && !skips(cc) {
 				havePending, pend = true, cc
 			}
-		case x < 68:
+		case x < 56:
 			ops = append(ops, "commit")
 			if havePending {
 				havePending = false
 				apply(pend)
 			}
-		case x < 90:
+		case x < 62:
+			ops = append(ops, "handle")
+		case x < 92:
 			cc := mkCC()
 			if !nodeValidTarget(cc.Address) && cc.Type != pb.RemoveNode {
 				cc.Address = hosts[0]
 			}
 			cc.Initialize = r.Chance(1, 20)
-			ops = append(ops, fmt.Sprintf("ent %d %d %s %d %d", int32(cc.Type), cc.ReplicaID, vh.Hex([]byte(cc.Address)), cc.ConfigChangeId, b2i(cc.Initialize)))
-			apply(cc)
+			what := "ent"
+			if r.Chance(1, 3) {
+				what = "qent"
+			}
+			ops = append(ops, fmt.Sprintf("%s %d %d %s %d %d", what, int32(cc.Type), cc.ReplicaID, vh.Hex([]byte(cc.Address)), cc.ConfigChangeId, b2i(cc.Initialize)))
+			if !skips(cc) {
+				apply(cc)
+			}
 		default:
 			// the membership a few committed changes ahead, as a snapshot from the leader carries it
 			scratch := hooks.NewMembership(1, nodeSelf, false)
 			scratch.Set(shadow.Get())
 			skip := uint64(r.Intn(4))
 			j := index
+			save := shadow
+			shadow = scratch // mkCC / skips look at the membership being built
 			for i := uint64(0); i <= skip; i++ {
 				j++
 				cc := mkCC()
-				if !valid(cc) {
+				if !valid(cc) || skips(cc) {
 					continue
 				}
-				if cc.ReplicaID == nodeSelf && !r.Chance(1, 5) {
+				if cc.ReplicaID == nodeSelf && cc.Type == pb.RemoveNode && !r.Chance(1, 5) {
 					continue
-				}
-				if cc.Type == pb.RemoveNode {
-					cc.Address = ""
 				}
 				vh.Catch(func() { scratch.HandleConfigChange(cc, j) })
 			}
+			shadow = save
 			pm := scratch.Get()
 			if pm.ConfigChangeId == 0 || len(pm.Addresses) == 0 {
 				continue
@@ -524,5 +691,8 @@ func genNodeCase(r *vh.Rand) string {
 			shadow.Set(pm)
 		}
 	}
-	return fmt.Sprintf("node ordered=%d peers=%d | %s", b2i(ordered), k, strings.Join(ops, " ; "))
+	if r.Chance(1, 2) {
+		ops = append(ops, "handle")
+	}
+	return fmt.Sprintf("node ordered=%d peers=%d kind=%s | %s", b2i(ordered), k, kind, strings.Join(ops, " ; "))
 }
